@@ -11,3 +11,4 @@ Definition reducer_dispatch : list reduce_rule := [RTensorCSR; RTensorCSC; RTens
 Definition run_pipeline_steps : list rp_step := [RPQueryFromUserId; RPItemsIfTestItems; RPExtraOverride; RPRunAll; RPCopyOutputs].
 Definition batch_loop_shape : batch_loop := AddEachOutputUnderItsKey.
 Definition pool_shutdown : list shutdown_step := [ShutPool; ShutManager].
+Definition worker_init_steps : list init_step := [InitDeclareGlobals; InitCurrentProcess; InitFilterWarnings; InitRebuildContext].
